@@ -1,5 +1,6 @@
 import Proofs.ConfModel
 import Proofs.KernelArr
+import Proofs.CgaObj
 
 /-! # C12 — g3c fast kernels equal their definitions; primitives are exact (algebraic core)
 
@@ -7,9 +8,11 @@ From the defining relations alone (any ℚ-algebra: every base dimension and sig
 `fast_up = up`, `down(up(x)) = x` (so `fast_down` inverts `fast_up`), the translation rotor is a unit rotor that
 moves `up(x)` to `up(x+a)`, `euc_dist² = (a-b)²`, rotor application composes, and the grade-filtered kernel behind
 `fast_dual` is the unrestricted product on a homogeneous left operand.
-PARTIAL: everything that needs `sqrt`, trigonometric/hyperbolic functions or branch analysis (dilation and rotation
-rotors, `point_pair_to_end_points`, sphere centre/radius, quaternion/matrix conversions, projections, the cost and
-parameterisation kernels, explicit rotor extractors) is decided by evaluation on the implementation. -/
+The primitives that involve `sqrt` / `cosh` / `cos` are proved with the transcendental value as a parameter constrained by
+its algebraic law (`a² − b² = 1`, `c² + s² = 1`, `β = −γ`): dilation and rotation rotors, `point_pair_to_end_points`,
+sphere centre and radius.
+PARTIAL: that libm's values satisfy those laws to rounding, quaternion/matrix conversions, projections, the cost and
+parameterisation kernels and the explicit rotor extractors are decided by evaluation on the implementation. -/
 
 namespace C12
 open Conf
@@ -54,5 +57,60 @@ theorem model_relations {N : Nat} {sig : Nat → ℚ} (n : Nat) (hN : N = n + 2)
     (v w : Fin N → ℚ) (hv : ∀ i : Fin N, n ≤ i.val → v i = 0) (hw : ∀ i : Fin N, n ≤ i.val → w i = 0) :
     Rel2 (Cl.vec v : Cl N sig) (Cl.vec w) (Cl.e n (by omega)) (Cl.e (n + 1) (by omega)) (Cl.Q N sig v) (Cl.Q N sig w)
       ((Cl.Q N sig (v + w) - Cl.Q N sig v - Cl.Q N sig w) / 2) := Cl.conformal_rel2 n hN h1 h2 v w hv hw
+
+/-! ## primitives with a transcendental parameter -/
+
+/-- `generate_dilation_rotor(k) = cosh(γ/2) + sinh(γ/2)·(ninf∧no)` with `ninf∧no = −E0`: the versor `a − b·E0`, `a² − b² = 1`,
+    is a unit rotor mapping the point of `x` to a multiple of the point of `(a+b)²·x` (`= e^γ x = k·x`) -/
+theorem dilation_rotor (r : Rel x ep en qx) (a' b' : ℚ) (h : (a' + -b') * (a' - -b') = 1) :
+    dil a' (-b') ep en * dilRev a' (-b') ep en = 1 ∧
+    dil a' (-b') ep en * up x ep en qx * dilRev a' (-b') ep en
+      = ((a' + -b') * (a' + -b')) • up (((a' - -b') * (a' - -b')) • x) ep en (((a' - -b') * (a' - -b')) * ((a' - -b') * (a' - -b')) * qx) :=
+  ⟨dil_is_unit r a' (-b') h, dil_up r a' (-b') h⟩
+
+/-- `generate_rotation_rotor(θ, m, n) = cos(θ/2) − sin(θ/2)·B` for the unit bivector `B` of the plane (`B² = −1`): a unit rotor -/
+theorem rotation_rotor_unit (B : A) (c s : ℚ) (hB : B * B = -1) (hcs : c * c + s * s = 1) :
+    (c • (1 : A) - s • B) * (c • (1 : A) + s • B) = 1 := by
+  have : (c • (1 : A) - s • B) * (c • (1 : A) + s • B) = (c * c) • (1 : A) - (s * s) • (B * B) := by
+    simp only [mul_add, sub_mul, smul_mul_assoc, mul_smul_comm, one_mul, mul_one, smul_smul, smul_sub, smul_add]
+    rw [mul_comm s c]; abel
+  rw [this, hB, smul_neg, sub_neg_eq_add, ← add_smul, hcs, one_smul]
+
+/-- … that turns a vector `m` of the plane (`B m = −m B`) by `θ`: `R m ~R = cos θ·m − sin θ·B m` (`cos θ = c² − s²`, `sin θ = 2cs`) -/
+theorem rotation_rotor_turns (B m : A) (c s : ℚ) (hB : B * B = -1) (hm : B * m = -(m * B)) :
+    (c • (1 : A) - s • B) * m * (c • (1 : A) + s • B) = (c * c - s * s) • m - (2 * c * s) • (B * m) := by
+  have hmB : m * B = -(B * m) := by rw [hm, neg_neg]
+  have hBmB : B * m * B = m := by rw [mul_assoc, hmB, mul_neg, ← mul_assoc, hB, neg_mul, one_mul, neg_neg]
+  simp only [mul_add, sub_mul, smul_mul_assoc, mul_smul_comm, one_mul, mul_one, smul_smul, smul_sub, smul_add, hmB, hBmB, smul_neg]
+  module
+
+/-- … and leaves alone what commutes with `B` (the axis, `eo`, `einf`) -/
+theorem rotation_rotor_fixes (B Y : A) (c s : ℚ) (hB : B * B = -1) (hcs : c * c + s * s = 1) (hY : Commute B Y) :
+    (c • (1 : A) - s • B) * Y * (c • (1 : A) + s • B) = Y :=
+  versor_fixes _ _ Y (((Commute.one_left Y).smul_left c).sub_left (hY.smul_left s)) (rotation_rotor_unit B c s hB hcs)
+
+/-- `point_pair_to_end_points(P∧Q)`: for null `P`, `Q` with `P·Q = γ ≠ 0`, `T = P∧Q` satisfies `T² = γ²`, and with
+    `β = −γ` (`= √|T²|` for points at positive distance), `F = T/β`: `½(1+F)(Q−P) = Q`, `−½(1−F)(Q−P) = P`;
+    `T|einf = Q − P` for normalised points -/
+theorem point_pair_square {P Q : A} {γ : ℚ} (h : PointPair.Null2 P Q γ) : PointPair.pp P Q * PointPair.pp P Q = (γ * γ) • (1 : A) :=
+  PointPair.pp_sq h
+theorem point_pair_end_points {P Q : A} {γ : ℚ} (h : PointPair.Null2 P Q γ) (hγ : γ ≠ 0) :
+    ((1/2 : ℚ) • ((-1/γ) • PointPair.pp P Q) + (1/2 : ℚ) • (1 : A)) * (Q - P) = Q
+    ∧ -(((-(1/2) : ℚ)) • ((-1/γ) • PointPair.pp P Q) + (1/2 : ℚ) • (1 : A)) * (Q - P) = P := PointPair.end_points h hγ
+theorem point_pair_dot_einf {P Q : A} {γ : ℚ} (h : PointPair.Null2 P Q γ) (e : A)
+    (hPe : e * P = (-2 : ℚ) • (1 : A) - P * e) (hQe : e * Q = (-2 : ℚ) • (1 : A) - Q * e) :
+    (1/2 : ℚ) • (PointPair.pp P Q * e - e * PointPair.pp P Q) = Q - P := PointPair.pp_dot_einf h e hPe hQe
+
+/-- `get_center_from_sphere(S) = S·ninf·S`, `get_radius_from_sphere`: for the dual sphere `σ = up(c) − ½ρ²·einf`
+    (and `S = λ σ J` through the duality) -/
+theorem sphere_centre (r : Rel x ep en qx) (ρ lam ε j : ℚ) (J : A) (hε : ε * ε = 1)
+    (hJs : J * dualSphere x ep en qx ρ = ε • (dualSphere x ep en qx ρ * J)) (hJe : J * einf ep en = ε • (einf ep en * J))
+    (hJ : J * J = j • (1 : A)) :
+    (lam • (dualSphere x ep en qx ρ * J)) * einf ep en * (lam • (dualSphere x ep en qx ρ * J)) = (-2 * lam * lam * j) • up x ep en qx :=
+  Conf.round_center r ρ lam ε j J hε hJs hJe hJ
+theorem sphere_radius (r : Rel x ep en qx) (ρ : ℚ) :
+    dualSphere x ep en qx ρ * dualSphere x ep en qx ρ = (2 * ρ) • (1 : A)
+    ∧ (1/2 : ℚ) • (dualSphere x ep en qx ρ * einf ep en + einf ep en * dualSphere x ep en qx ρ) = -1 :=
+  ⟨dualSphere_sq r ρ, dualSphere_dot_einf r ρ⟩
 
 end C12
